@@ -154,7 +154,9 @@ func (orderedMap *Map[K, V]) Sort(lessFunc func(i K, j K) bool) {
 	})
 }
 
-func (orderedMap *Map[K, V]) MarshalJSON() ([]byte, error) {
+// MarshalJSON has a value receiver: a Map held by value (a struct field, the
+// value of another map) is encoded with it too, not as a struct without exported fields.
+func (orderedMap Map[K, V]) MarshalJSON() ([]byte, error) {
 	var err error
 	buffer := bytes.Buffer{}
 	encoder := json.NewEncoder(&buffer)
